@@ -115,8 +115,8 @@ theorem params_exact (pattern : Str) (id : Nat) (group : Str) (par : Bool) (root
     (h : addHandlerAt Node.empty pattern id group par = (root', .ok ()))
     (hm : matchNode root' toks 0 0 = some f) :
     ∃ m, paramValues f.node.params toks f.mountIdx = some m ∧
-      (∀ j name, (splitPattern pattern)[j]? = some (Ch.dollar :: name) → Pattern.mapGet m name = toks[j]?) ∧
-      (∀ name v, Pattern.mapGet m name = some v → ∃ j, (splitPattern pattern)[j]? = some (Ch.dollar :: name)) := by
+      (∀ (j : Nat) (name : Str), (splitPattern pattern)[j]? = some (Ch.dollar :: name) → Pattern.mapGet m name = toks[j]?) ∧
+      (∀ (name v : Str), Pattern.mapGet m name = some v → ∃ j : Nat, (splitPattern pattern)[j]? = some (Ch.dollar :: name)) := by
   sorry
 
 /-- **group is exact**: the stored group is the parsed template (indexes are positions of the
